@@ -11,6 +11,7 @@ import (
 	"context"
 	"encoding/json"
 	"fmt"
+	"go/token"
 	"go/types"
 	"os"
 	"os/exec"
@@ -45,8 +46,8 @@ type inImpl struct {
 	node *inNode
 }
 
-const replayDepth = 4
-const replayElems = 4
+const replayDepth = 3
+const replayElems = 3
 
 func (e *Exec) buildInput(v Val, t types.Type, depth int) *inNode {
 	n := &inNode{T: t, K: v.K, terms: v.A}
@@ -195,6 +196,7 @@ type goBuilder struct {
 	objs  map[string]string // ref value -> variable
 	p     *Prog
 	inexact bool
+	needSet bool
 }
 
 func (g *goBuilder) qual(t types.Type) string {
@@ -346,7 +348,16 @@ func (g *goBuilder) object(ref int64, pt types.Type, fields []*inField) string {
 		if ex == "nil" || ex == `""` || ex == "false" || ex == "[]byte(nil)" {
 			continue
 		}
-		fmt.Fprintf(&g.b, "\t%s.%s = %s\n", name, f.name, ex)
+		foreign := false
+		if nt, ok := types.Unalias(elem).(*types.Named); ok && nt.Obj().Pkg() != g.pkg && !token.IsExported(f.name) {
+			foreign = true
+		}
+		if foreign {
+			g.needSet = true
+			fmt.Fprintf(&g.b, "\tgovcSet(%s, %q, %s(%s))\n", name, f.name, g.qual(f.node.T), ex)
+		} else {
+			fmt.Fprintf(&g.b, "\t%s.%s = %s\n", name, f.name, ex)
+		}
 	}
 	return name
 }
@@ -434,6 +445,10 @@ func tryReplay(p *Prog, o *Obligation, rf *ReplayFile, repo string) {
 	if strings.Contains(body+strings.Join(args, " "), "time.") {
 		imports["time"] = true
 	}
+	if g.needSet {
+		imports["reflect"] = true
+		imports["unsafe"] = true
+	}
 	fmt.Fprintf(&t, "package %s\n\nimport (\n", fn.Pkg.Pkg.Name())
 	for _, im := range sortedKeys(imports) {
 		fmt.Fprintf(&t, "\t%q\n", im)
@@ -468,6 +483,9 @@ func tryReplay(p *Prog, o *Obligation, rf *ReplayFile, repo string) {
 		fmt.Fprintf(&t, "\t%s\n", call)
 	}
 	fmt.Fprintf(&t, "\tfmt.Println(\"REPLAY-RETURNED\")\n}\n")
+	if g.needSet {
+		t.WriteString("\n// govcSet assigns an unexported field of a struct from another package (test-only, via reflect+unsafe).\nfunc govcSet(obj interface{}, name string, val interface{}) {\n\tv := reflect.ValueOf(obj).Elem().FieldByName(name)\n\treflect.NewAt(v.Type(), unsafe.Pointer(v.UnsafeAddr())).Elem().Set(reflect.ValueOf(val).Convert(v.Type()))\n}\n")
+	}
 	rf.Test = t.String()
 	out, err := runOverlayTest(p, repo, fn.Pkg.Pkg.Path(), rf.Test)
 	rf.TestOutput = truncate(out, 6000)
